@@ -117,6 +117,9 @@ class DryReal:
                         broken = None
                     else:
                         ctx.probe("forked_with_broken_pattern")
+                        for w_ in (wa, wb):
+                            if w_.repo is not None:
+                                w_.repo.baseline(w_.dir)
             if perturb == "tag_collision" and wa.repo is not None and not op.get("sv"):
                 exp = tc.expectation(ctx, tree, state, text, flags, clock, False)
                 if exp[0] == "ok" and exp[2]:
